@@ -2208,6 +2208,12 @@ func (s *ImmuStore) DiscardPrecommittedTxsSince(txID uint64) (int, error) {
 		return 0, nil
 	}
 
+	if txID <= s.commitAllowedUpToTxID {
+		// a granted commit allowance is not revoked: if the transactions it covers were
+		// discarded, whatever gets precommitted under their ids next would be committed unchecked
+		return 0, fmt.Errorf("%w: transactions already allowed to be committed cannot be discarded", ErrIllegalState)
+	}
+
 	txsToDiscard := int(s.inmemPrecommittedTxID + 1 - txID)
 
 	err := s.aht.ResetSize(s.aht.Size() - uint64(txsToDiscard))
